@@ -371,6 +371,9 @@ func (t *T) Use(data []byte, where string) {
 	}
 }
 
+// Overlaps reports whether the memory of a (its length) and of b (its whole capacity) intersect.
+func Overlaps(a, b []byte) bool { return overlaps(a, b) }
+
 // HasPoison reports the index of the first poison byte in data (-1: none).
 func HasPoison(data []byte) int {
 	for i, c := range data {
@@ -499,6 +502,15 @@ func (t *T) LiveSites() []string {
 		}
 	}
 	return out
+}
+
+// IsFreed reports whether h is a handle this allocator handed out and got back (false for live
+// handles and for memory it never handed out).
+func (t *T) IsFreed(h *[]byte) bool {
+	t.mu.Lock()
+	defer t.mu.Unlock()
+	b := t.bufs[h]
+	return b != nil && b.freed
 }
 
 // IsLive reports whether h is a live tracked handle.
